@@ -186,6 +186,7 @@ func (es *ExecutableStatement) VisitQueryNoWithParse(ctx *QueryNoWithParse) inte
 
 	sr := NewSelectRelation()
 	sr.Limit = ctx.limit
+	sr.hasLimit = ctx.hasLimit
 
 	es.nodeCursor.payload = sr // For retrieval of the dynamic type later
 	return ctx.queryTerm
